@@ -123,6 +123,15 @@ func cmdCheck(args []string) int {
 		units = append(units, u)
 	}
 	runDir := filepath.Join(verifDir, "out", fmt.Sprintf("%s-%s-%d", *prop, *tier, os.Getpid()))
+	// disk hygiene: the SMT files of earlier runs of this check (tens of MB each) are dropped once they are
+	// half an hour old; the files of the current run stay until then (replay files point at them)
+	if old, err := filepath.Glob(filepath.Join(verifDir, "out", fmt.Sprintf("%s-%s-*", *prop, *tier))); err == nil {
+		for _, d := range old {
+			if fi, err := os.Stat(d); err == nil && time.Since(fi.ModTime()) > 30*time.Minute {
+				os.RemoveAll(d)
+			}
+		}
+	}
 	os.MkdirAll(runDir, 0o755)
 	quickMs, fbMs := 10000, 15000
 	if *tier == "thorough" {
